@@ -189,3 +189,20 @@ Theorem C08_from_init_retained_until_delivered : forall n pre iid tab t0 ops,
   assoc iid (d_wm (fst (run (fst (step (fst (run (init_db n) pre)) (OChanges iid tab))) ops))) = Some (it_delrev it).
 Proof. exact init_retention. Qed.
 Print Assumptions C08_from_init_retained_until_delivered.
+
+(* the same with Next called on retained snapshots, any monotone choice (Table/ChangesSnap.v, see C07.v) *)
+From SV Require Import Table.ChangesSnap.
+
+Theorem C08_retained_until_delivered_any_monotone_snapshots : forall iid tab n pre t0 ops,
+  room_run (init_db n) (pre ++ OChanges iid tab :: ops) ->
+  created (fst (run (init_db n) pre)) iid tab t0 ->
+  (forall cur, nth_error (d_root (fst (run (init_db n) pre))) tab = Some cur -> ~ reg iid cur) ->
+  mfriendly_run iid tab mg0 (fst (step (fst (run (init_db n) pre)) (OChanges iid tab))) ops ->
+  forall it cur,
+  assoc iid (d_iters (fst (run (fst (step (fst (run (init_db n) pre)) (OChanges iid tab))) ops))) = Some it ->
+  nth_error (d_root (fst (run (fst (step (fst (run (init_db n) pre)) (OChanges iid tab))) ops))) tab = Some cur ->
+  reg iid cur ->
+  retained (fst (grun iid (t0, []) (fst (step (fst (run (init_db n) pre)) (OChanges iid tab))) ops)) cur (it_delrev it) /\
+  assoc iid (d_wm (fst (run (fst (step (fst (run (init_db n) pre)) (OChanges iid tab))) ops))) = Some (it_delrev it).
+Proof. exact init_retention_mono. Qed.
+Print Assumptions C08_retained_until_delivered_any_monotone_snapshots.
